@@ -553,6 +553,7 @@ impl DeconstructedPat {
             | Type::Void
             | Type::Poly(..)
             | Type::InterfaceOutput(..)
+            | Type::Never
             | Type::Function(..) => vec![],
             Type::Tuple(tys) => tys.clone(),
             Type::Nominal(Nominal::Struct(struct_def), args)
@@ -575,7 +576,6 @@ impl DeconstructedPat {
                 }
                 _ => panic!("unexpected constructor"),
             },
-            Type::Never => unreachable!(),
         }
     }
 
@@ -1150,8 +1150,9 @@ fn ctors_for_ty(ty: &Type) -> ConstructorSet {
         Type::Void => ConstructorSet::Product,
         Type::Int | Type::Float | Type::String | Type::Function(..) => ConstructorSet::Unlistable,
         Type::Poly(..) => ConstructorSet::Unlistable,
-
-        Type::Never => unreachable!(),
+        // a scrutinee that diverges (`match { return 5 } { .. }`) has no values. Only wildcards
+        // and bindings can be typed `never`, and those cover it
+        Type::Never => ConstructorSet::Unlistable,
         Type::InterfaceOutput(..) => unreachable!(),
     }
 }
